@@ -13,7 +13,7 @@ CONSTANT Prop
 
 Recs == JsonDeserialize(IOEnv.TRACE_FILE)
 Has_(r, f) == f \in DOMAIN r
-OutOk(r) == Ok(r.out)
+OutOk(r) == "out" \in DOMAIN r /\ Ok(r.out)
 
 \* ---------------------------------------------------------------- C07
 C07_Checks(r) ==
@@ -109,8 +109,39 @@ C17_Checks(r) ==
   \cup (IF r.act = "with_port" /\ Has_(r, "self") THEN {<<"C17.with_port", TRUE, C17_WithPort(r.args, r.self, r.out)>>} ELSE {})
   \cup (IF r.act = "build" /\ "encoded" \notin DOMAIN r.args.kw THEN {<<"C17.build_port", "port" \in DOMAIN r.args.kw, C17_BuildPort(r.args.kw, r.out)>>} ELSE {})
 
+\* ---------------------------------------------------------------- C04
+C04_Checks(r) ==
+  IF r.act # "ctor" \/ r.args.encoded THEN {}
+  ELSE LET canon == CanonicalUrl(r.args.s, UsesNetloc) IN
+       {<<"C04.unchanged", canon, canon => (OutOk(r) /\ C04_Unchanged(r.args.s, r.out.ok))>>}
+
+\* ---------------------------------------------------------------- C10
+C10_Checks(r) ==
+  IF r.act = "cmp" THEN
+     {<<"C10.eqdef", TRUE, C10_EqDef(r)>>, <<"C10.hash", r.eq, C10_Hash(r)>>, <<"C10.symmetric", TRUE, C10_Symmetric(r)>>,
+      <<"C10.trichotomy", TRUE, C10_Trichotomy(r)>>, <<"C10.lege", TRUE, C10_LeGe(r)>>, <<"C10.nonurl", TRUE, C10_NonUrl(r)>>}
+  ELSE IF r.act = "cmp3" THEN {<<"C10.transitive", TRUE, C10_Transitive(r)>>}
+  ELSE {}
+
+\* ---------------------------------------------------------------- C12
+C12_Checks(r) ==
+  IF r.act \in {"with_query", "extend_query", "update_query", "mod"} /\ Has_(r, "self")
+     /\ ~(r.args.q.form = "kwargs" /\ r.args.q.pairs = <<>>)      \* a call with no argument at all: not a query argument
+  THEN
+     {<<"C12.gate", ~QArgOk(r.args.q), C12_Gate(r.args.q, r.out)>>,
+      <<"C12.argument_unchanged", Has_(r, "arg_unchanged"), Has_(r, "arg_unchanged") => r.arg_unchanged>>}
+     \cup (IF r.act = "with_query" THEN {<<"C12.with_query", QArgOk(r.args.q), C12_WithQuery(r.args.q, r.self, r.out)>>}
+           ELSE IF r.act = "extend_query" THEN {<<"C12.extend_query", QArgOk(r.args.q), C12_ExtendQuery(r.args.q, r.self, r.out)>>}
+           ELSE {<<"C12.update_query", QArgOk(r.args.q), C12_UpdateQuery(r.args.q, r.self, r.out)>>})
+  ELSE IF r.act = "without_query_params" /\ Has_(r, "self") THEN
+     {<<"C12.without_query_params", TRUE, C12_Without(r.args.keys, r.self, r.out)>>}
+  ELSE {}
+
 Checks(r) ==
   CASE Prop = "C07" -> C07_Checks(r)
+    [] Prop = "C12" -> C12_Checks(r)
+    [] Prop = "C10" -> C10_Checks(r)
+    [] Prop = "C04" -> C04_Checks(r)
     [] Prop = "C11" -> C11_Checks(r)
     [] Prop = "C15" -> C15_Checks(r)
     [] Prop = "C14" -> C14_Checks(r)
@@ -162,7 +193,13 @@ Trig_JoinRootlessBase(r) ==
   /\ Netloc5(r.self) = <<>> /\ (Path5(r.self) = <<>> \/ Path5(r.self)[1] # SLASH)
   /\ LET j == Join(ModelOf(r.self), ModelOf(r.other.ok)) O == r.out.ok IN
        j = Url(Scheme5(O), Netloc5(O), Path5(O), Query5(O), Frag5(O))
+\* Dev_OrderingOnRawTuple: equal by == but ordered by the raw tuple; observed = Level I
+Trig_OrderingOnRawTuple(r) ==
+  /\ r.act = "cmp" /\ NormKey5(r.a) = NormKey5(r.b) /\ V(r.a.val) # V(r.b.val)
+  /\ r.lt = Lt(ModelOf(r.a), ModelOf(r.b)) /\ r.gt = Gt(ModelOf(r.a), ModelOf(r.b))
+  /\ r.le = Le(ModelOf(r.a), ModelOf(r.b)) /\ r.ge = Ge(ModelOf(r.a), ModelOf(r.b))
 Attribution(r) ==
+  IF r.act \in {"cmp", "cmp3"} THEN (IF r.act = "cmp" /\ Trig_OrderingOnRawTuple(r) THEN {"Dev_OrderingOnRawTuple"} ELSE {}) ELSE
   (IF OutOk(r) THEN ObsAttribution(r.out.ok) ELSE {})
   \cup (IF Trig_JoinRootlessBase(r) THEN {"Dev_JoinRootlessBase"} ELSE {})
   \* Dev_MakeChildClimbEatsRoot: '/' and joinpath with a '..' that climbs above the root (trigger only)
